@@ -123,6 +123,19 @@ func TestStorageEvents(t *testing.T) {
 					w.Exec(1, Op{Op: "usepar", Client: "A", Kind: "own", Par: 1, Field: "none"})
 					w.Exec(1, Op{Op: "redeem", Client: "A", Auth: auth, Code: 1, Redir: "same", Ver: "none"})
 				},
+				// a private_key_jwt client through the flows that store its request: the signed assertion must not be persisted
+				"assertion_client": func(w *World) {
+					w.Exec(1, Op{Op: "push", Client: "J", Auth: "assertion", RType: "code", Scopes: full, Redir: "sent", Field: "none"})
+					w.Exec(1, Op{Op: "usepar", Client: "J", Kind: "own", Par: 1, Field: "none"})
+					w.Exec(1, Op{Op: "redeem", Client: "J", Auth: "assertion", Code: 1, Redir: "same", Ver: "none"})
+					w.Exec(1, Op{Op: "refresh", Client: "J", Auth: "assertion", Tok: 1})
+					w.Exec(1, Op{Op: "devstart", Client: "J", Auth: "assertion", Scopes: full, Grant: full})
+					w.Exec(1, Op{Op: "devdecide", Dev: 1, Dec: "accept"})
+					w.Exec(1, Op{Op: "devpoll", Client: "J", Auth: "assertion", Dev: 1})
+					w.Exec(1, Op{Op: "password", Client: "J", Auth: "assertion", User: "ok", Scopes: []string{"offline", "a"}})
+					w.Exec(1, Op{Op: "ccreds", Client: "J", Auth: "assertion", Scopes: []string{"a"}})
+					w.Exec(1, Op{Op: "revoke", Client: "J", Auth: "assertion", Kind: "rt", Tok: 2, Hint: "rt"})
+				},
 				"assertions": func(w *World) {
 					w.Exec(1, Op{Op: "jauth", Val: "jti-a1"})
 					w.Exec(1, Op{Op: "jbearer", Val: "jti-b1"})
